@@ -514,12 +514,9 @@ def r03_2_backtrack_contract(ctx: Ctx) -> None:
                 continue
             rec = [c for _, c in calls if call_attr(c) == "backtrack_unary"]
             problem = None
-            caps = env_at(p)
-            tname = None
-            for nme, b in caps.items():
-                if isinstance(b, tuple) and b[0] == "capture" and src(b[1]) == tree and b[2] == ("target",):
-                    tname = nme
-            if not rec or len(rec[0].args) < 3 or src(rec[0].args[0]) != f"{cname}.first" or src(rec[0].args[1]) not in (tname, f"{tree}.target") or src(rec[0].args[2]) != pref:
+            from ..flow import denotes
+
+            if not rec or len(rec[0].args) < 3 or src(rec[0].args[0]) != f"{cname}.first" or not denotes(p, rec[0].args[1], tree, ("target",)) or src(rec[0].args[2]) != pref:
                 problem = f"recursion is not on ({cname}.first, <target of the node>, {pref})"
             ups = None
             for s in p.steps:
@@ -529,8 +526,21 @@ def r03_2_backtrack_contract(ctx: Ctx) -> None:
                 problem = problem or "the recursive result is not unpacked into (upstream, done, messages)"
             else:
                 up, dn = ups[0], ups[1]
-                changed = has_fact(facts, "IS", tuple(sorted((up, tname or ""))), False)
-                same = has_fact(facts, "IS", tuple(sorted((up, tname or ""))), True)
+
+                def _is_target(polarity: bool) -> bool:
+                    for fct in facts:
+                        if fct.kind == "IS" and fct.polarity == polarity and up in fct.args:
+                            other = [a for a in fct.args if a != up]
+                            try:
+                                oe = ast.parse(other[0], mode="eval").body if other else None
+                            except SyntaxError:
+                                oe = None
+                            if oe is not None and denotes(p, oe, tree, ("target",)):
+                                return True
+                    return False
+
+                changed = _is_target(False)
+                same = _is_target(True)
                 rv = v.elts[0] if isinstance(v, ast.Tuple) and v.elts else None
                 rb = resolve_name(p, rv.id) if isinstance(rv, ast.Name) else rv
                 if changed:
@@ -541,7 +551,7 @@ def r03_2_backtrack_contract(ctx: Ctx) -> None:
                     if not (rb is not None and src(rb) == tree):
                         problem = problem or "when upstream is unchanged the original tree must be returned (no rebuilt copy)"
                 else:
-                    problem = problem or f"the rebuilt node is not conditional on `{up} is not {tname}`"
+                    problem = problem or f"the rebuilt node is not conditional on `{up} is not <the node's target>`"
                 d = v.elts[1] if isinstance(v, ast.Tuple) and len(v.elts) > 1 else None
                 okd = isinstance(d, ast.BoolOp) and isinstance(d.op, ast.And) and {src(x) for x in d.values} == {dn, f"{cname}.done"}
                 if not okd:
